@@ -295,7 +295,7 @@ def judge_flux(sc, res):
     if kind == "hybrid" and ns and 3.5 < max(ns) <= 4.0 and abs(ratio - f_in) <= 0.045 + f_out:
         rr = max(r for (w, r, n, e) in comps)
         dmin = min(p["xc"] + 0.5, N - 0.5 - p["xc"], p["yc"] + 0.5, N - 0.5 - p["yc"])
-        if dmin < 8 * rr:
+        if dmin < 15 * rr:          # 15 r_eff = σ of the widest mixture component (frac_end), one of those the hybrid renderer truncates at the frame
             return [("band-tight-upper-end-truncated", f"total/(flux·ΣPSF) = {ratio:.4f}, in-footprint fraction {f_in:.4f}: off by {ratio - f_in:+.4f} "
                      f"(tight tolerance {tol:.4f}, general band {0.045 + f_out:.4f}); n={max(ns):.2f}, nearest edge {dmin:.1f} px = {dmin / rr:.1f} r_eff")]
     return [("band", f"total/(flux·ΣPSF) = {ratio:.4f}, in-footprint fraction {f_in:.4f}: off by {ratio - f_in:+.4f} (tolerance {tol:.4f}; n={ns})")]
